@@ -71,7 +71,7 @@ func (x *extractor) ty(dt expr.DataType, depth int) string {
 			return "(TAlias " + x.ty(inner, depth+1) + ")"
 		}
 		if n, ok := x.msgVarName(t); ok {
-			return "(TMsg " + vh.CoqBytes(n) + ")"
+			return "(TMsg " + zs(n) + ")"
 		}
 		return x.fail("user type %s has no emitted message", t.Name())
 	}
@@ -80,7 +80,7 @@ func (x *extractor) ty(dt expr.DataType, depth int) string {
 
 func coqTag(a *expr.AttributeExpr) string {
 	if t, ok := a.FieldTag(); ok {
-		return "(Some " + vh.CoqBytes(t) + ")"
+		return "(Some " + zs(t) + ")"
 	}
 	return "None"
 }
@@ -98,15 +98,15 @@ func (x *extractor) msg(m *service.UserTypeData) string {
 		if u, ok := nat.Attribute.Type.(*expr.Union); ok {
 			var alts []string
 			for _, v := range u.Values {
-				alts = append(alts, fmt.Sprintf("(%s, %s, %s)", vh.CoqBytes(v.Name), coqTag(v.Attribute), x.ty(v.Attribute.Type, 0)))
+				alts = append(alts, fmt.Sprintf("(%s, %s, %s)", zs(v.Name), coqTag(v.Attribute), x.ty(v.Attribute.Type, 0)))
 			}
-			ms = append(ms, fmt.Sprintf("MOneof %s %s", vh.CoqBytes(u.Name()), vh.CoqList(alts)))
+			ms = append(ms, fmt.Sprintf("MOneof %s %s", zs(u.Name()), vh.CoqList(alts)))
 			continue
 		}
-		ms = append(ms, fmt.Sprintf("MField %s %s %s %s", vh.CoqBytes(nat.Name), coqTag(nat.Attribute),
+		ms = append(ms, fmt.Sprintf("MField %s %s %s %s", zs(nat.Name), coqTag(nat.Attribute),
 			vh.CoqBool(att.IsRequired(nat.Name)), x.ty(nat.Attribute.Type, 0)))
 	}
-	return fmt.Sprintf("Msg %s %s", vh.CoqBytes(m.VarName), vh.CoqList(ms))
+	return fmt.Sprintf("Msg %s %s", zs(m.VarName), vh.CoqList(ms))
 }
 
 var coqKind = map[int]string{1: "Unary", 2: "ClientStream", 3: "ServerStream", 4: "Bidi"}
@@ -128,8 +128,8 @@ func ModelFile(svc *Svc) (term string, reason string) {
 		if ed.Request.Message == nil || ed.Response.Message == nil {
 			return "", "endpoint without message data"
 		}
-		rpcs = append(rpcs, fmt.Sprintf("(%s, %s, %s, %s)", vh.CoqBytes(ed.Method.VarName), coqKind[svc.Methods[i].StreamKind()],
-			vh.CoqBytes(ed.Request.Message.VarName), vh.CoqBytes(ed.Response.Message.VarName)))
+		rpcs = append(rpcs, fmt.Sprintf("(%s, %s, %s, %s)", zs(ed.Method.VarName), coqKind[svc.Methods[i].StreamKind()],
+			zs(ed.Request.Message.VarName), zs(ed.Response.Message.VarName)))
 	}
 	var msgs []string
 	for _, m := range sd.Messages {
@@ -139,7 +139,7 @@ func ModelFile(svc *Svc) (term string, reason string) {
 		return "", x.err
 	}
 	pkg := codegen.SnakeCase(sd.Service.PathName)
-	return fmt.Sprintf("File %s %s %s %s", vh.CoqBytes(pkg), vh.CoqBytes(sd.Name), vh.CoqList(rpcs), vh.CoqList(msgs)), ""
+	return fmt.Sprintf("File %s %s %s %s", zs(pkg), zs(sd.Name), vh.CoqList(rpcs), vh.CoqList(msgs)), ""
 }
 
 // CoqTokens renders the tokens of the real text as Model.token terms.
@@ -152,17 +152,88 @@ func CoqTokens(toks []Tok) string {
 		}
 		switch t.Kind {
 		case "id":
-			b.WriteString("I " + vh.CoqBytes(t.Text))
+			b.WriteString("TI " + zs(t.Text))
 		case "num":
-			b.WriteString("D " + t.Text)
+			b.WriteString("TD " + t.Text)
 		case "str":
-			b.WriteString("Q " + vh.CoqBytes(t.Text))
+			b.WriteString("TQ " + zs(t.Text))
 		case "sym":
-			fmt.Fprintf(&b, "Y %d", t.Text[0])
+			fmt.Fprintf(&b, "TY %d", t.Text[0])
 		default:
-			b.WriteString("Bad " + vh.CoqBytes(t.Text))
+			b.WriteString("TBad " + zs(t.Text))
 		}
 	}
 	b.WriteString("]")
 	return b.String()
 }
+
+// epMsgs reads the attribute names goa put in the request / response message of
+// each endpoint.
+type epMsgs struct{ sd *grpccodegen.ServiceData }
+
+func endpointMessages(svc string) *epMsgs {
+	sd := grpccodegen.GRPCServices.Get(svc)
+	if sd == nil {
+		return nil
+	}
+	return &epMsgs{sd}
+}
+
+func objNames(m *service.UserTypeData) ([]string, bool) {
+	if m == nil || m.Type == nil {
+		return nil, false
+	}
+	obj, ok := m.Type.Attribute().Type.(*expr.Object)
+	if !ok {
+		return nil, false
+	}
+	var out []string
+	for _, nat := range *obj {
+		out = append(out, nat.Name)
+	}
+	return out, true
+}
+
+func (x *epMsgs) request(i int) ([]string, bool) {
+	if i >= len(x.sd.Endpoints) {
+		return nil, false
+	}
+	return objNames(x.sd.Endpoints[i].Request.Message)
+}
+
+func (x *epMsgs) response(i int) ([]string, bool) {
+	if i >= len(x.sd.Endpoints) {
+		return nil, false
+	}
+	return objNames(x.sd.Endpoints[i].Response.Message)
+}
+
+// chunks encodes a byte string as primitive integers holding up to seven bytes
+// each behind a leading 1 (decoded by Run.z1 / Run.zl).
+func chunks(s string) []string {
+	var out []string
+	for i := 0; i < len(s); i += 7 {
+		j := min(i+7, len(s))
+		x := uint64(1)
+		for k := i; k < j; k++ {
+			x = x<<8 | uint64(s[k])
+		}
+		out = append(out, fmt.Sprint(x))
+	}
+	return out
+}
+
+// zs prints a byte string as a Coq term of type str.
+func zs(s string) string {
+	c := chunks(s)
+	switch len(c) {
+	case 0:
+		return "[]"
+	case 1:
+		return "(z1 " + c[0] + ")"
+	}
+	return "(zl [" + strings.Join(c, ";") + "])"
+}
+
+// zn prints a byte string as the list of integers Run.zl decodes.
+func zn(s string) string { return "[" + strings.Join(chunks(s), ";") + "]" }
